@@ -1971,7 +1971,10 @@ namespace bloch::compiler {
         if (node.target)
             node.target->accept(*this);
         auto tinfo = inferTypeInfo(node.target.get());
-        if (tinfo.value != ValueType::Unknown && tinfo.value != ValueType::Qubit) {
+        // a register, another array or an object has no primitive tag but a class name
+        bool namedNonQubit = !tinfo.className.empty() && !tinfo.isTypeParam;
+        if ((tinfo.value != ValueType::Unknown && tinfo.value != ValueType::Qubit) ||
+            namedNonQubit) {
             throw BlochError(ErrorCategory::Semantic, node.line, node.column,
                              "reset target must be a 'qubit'");
         }
@@ -2732,7 +2735,11 @@ namespace bloch::compiler {
         if (node.qubit)
             node.qubit->accept(*this);
         auto tinfo = inferTypeInfo(node.qubit.get());
-        if (tinfo.value != ValueType::Unknown && tinfo.value != ValueType::Qubit) {
+        // as an expression 'measure' yields one bit: a register (measured by the statement form),
+        // another array or an object is not a target
+        bool namedNonQubit = !tinfo.className.empty() && !tinfo.isTypeParam;
+        if ((tinfo.value != ValueType::Unknown && tinfo.value != ValueType::Qubit) ||
+            namedNonQubit) {
             throw BlochError(ErrorCategory::Semantic, node.line, node.column,
                              "measure target must be a 'qubit'");
         }
